@@ -1008,7 +1008,19 @@ func genHandle(r *hx.Rng, c *catalogue, makeKey func(string, uint32) (genKey, bo
 		if len(kd.GetValue()) > 6000 {
 			return "", false
 		}
-		ents = append(ents, fmt.Sprintf("%d~%d~%d~%d~%s~%s", id, st, int32(s.OutputPrefixType()), int32(kd.GetKeyMaterialType()), kd.GetTypeUrl(), hx.H(kd.GetValue())))
+		value := kd.GetValue()
+		if hasBigInts(kd.GetTypeUrl()) && r.Chance(30) {
+			// the same integers with missing or extra leading zero bytes: the handle
+			// normalises them on the way in (C12_constructed_key_roundtrip inside a
+			// keyset; for private keys also the public part handed to Public())
+			if v, ok := reencodeBigInts(r, kd.GetTypeUrl(), value, false); ok {
+				value = v
+				if tag == "plain" {
+					tag = "unnormalised-ints"
+				}
+			}
+		}
+		ents = append(ents, fmt.Sprintf("%d~%d~%d~%d~%s~%s", id, st, int32(s.OutputPrefixType()), int32(kd.GetKeyMaterialType()), kd.GetTypeUrl(), hx.H(value)))
 		schemas[kd.GetTypeUrl()] = schemaOfURL(kd.GetTypeUrl())
 		if pu, pf := pubInfo(kd.GetTypeUrl()); pu != "-" {
 			pubs[kd.GetTypeUrl()] = fmt.Sprintf("%s~%d", pu, pf)
